@@ -15,7 +15,7 @@ use crate::probe::Probe;
 use crate::statejson::{self, oshape_from_spec, Params, ShapeSpec, StateSpec};
 
 pub const TITLE: &str = "A scored hard packing has no overlapping shapes anywhere in the tiling";
-pub const RULE: &str = "cases = one cell (group, shape, length, ratio, angle) with a vector of sites (x, y, orientation); every (cell, site) is one evaluation. Families: uniform (cell from a target packing fraction 0.3..1.05, sites from the bound-heavy mixture); thin (cell height b sin(t) drawn in [0.4,2.2] enclosing radii, ratio and angle from mixtures, sites within 0.02 of a cell face half of the time); contact (a thin-family state whose cell length or site coordinate is bisected until the closest image at lattice index >= 2 overlaps by 1.6e-9..0.3); aligned-contact (p2, a copy within 1e-12..1e-2 of a cell face, its two-fold partner's image two rows away placed in line with it within 0 or 1e-12..1e-2 of a cell, skewed thin cells; the cell length bisected until exactly that image overlaps by 1.6e-9..1e-5); histories (a Probe around real states run through the real optimiser with 1..12 inner loops, every score() call that returned Some is judged). Oracle: for every state with score()==Some, all image pairs with centre distance < 2R found by solving the lattice inequalities (no shell constant), separating-axis / disc-distance signed gap; violation iff some pair penetrates by more than 1e-9. Non-trivial = score is Some and (an image at lattice index >= 2 lies within 2R of a copy, or the smallest gap is below 0.05 R). Distinct by hash of the state's numbers. Also counted: rejected states whose only true overlaps are at index >= 2 (the ones a too-small shell count would accept).";
+pub const RULE: &str = "cases = one cell (group, shape, length, ratio, angle) with a vector of sites (x, y, orientation); every (cell, site) is one evaluation. Families: uniform (cell from a target packing fraction 0.3..1.05, sites from the bound-heavy mixture); thin (cell height b sin(t) drawn in [0.4,2.2] enclosing radii, ratio and angle from mixtures, sites within 0.02 of a cell face half of the time); contact (a thin-family state whose cell length or site coordinate is bisected until the closest image at lattice index >= 2 overlaps by 1.6e-9..0.3); aligned-contact (p2, a copy within 1e-12..1e-2 of a cell face, its two-fold partner's image two rows away placed in line with it within 0 or 1e-12..1e-2 of a cell, skewed thin cells; the cell length bisected until exactly that image overlaps by 1.6e-9..1e-5); histories (a Probe around real states run through the real optimiser with 1..12 inner loops, every score() call that returned Some is judged). Oracle: for every state with score()==Some, all image pairs with centre distance < 2R found by solving the lattice inequalities (no shell constant), separating-axis / disc-distance signed gap; violation iff some pair penetrates by more than 1e-9. Non-trivial = score is Some and (an image at lattice index >= 2 lies within 2R of a copy, or the smallest gap is below 0.05 R). Distinct by hash of the state's numbers. Also counted: rejected states whose only true overlaps are at index >= 2 (the ones a too-small shell count would accept). part multi-site: states with 2..4 occupied sites built by PackedState::initialise (packing fraction target 0.05..0.75); the placed copies are the union over the sites, judged by the same exhaustive image enumeration; the reported number of shapes must be sites x group order.";
 
 pub fn assumptions() -> Vec<&'static str> {
     vec![
@@ -135,12 +135,18 @@ pub fn judge_scored(os: &OShape, group: usize, p: &Params, ctx: &Ctx, rec: &Rec,
     let g = geom::group(group);
     let lat = Lattice::from_params(p.length, p.ratio, p.angle);
     let copies = geom::site_copies_cartesian(&g, &lat, p.x, p.y, p.phi);
+    let desc = format!("group {}, cell length {}, ratio {}, angle {}, site ({}, {}, {})", g.name, p.length, p.ratio, p.angle, p.x, p.y, p.phi);
+    judge_copies(os, &lat, &copies, &desc, ctx, rec, what)
+}
+
+/// the same for any list of placed copies (several occupied sites)
+pub fn judge_copies(os: &OShape, lat: &Lattice, copies: &[geom::Aff], desc: &str, ctx: &Ctx, rec: &Rec, what: &str) -> Result<Judged, String> {
     let r = os.enclosing_radius();
     let mut worst = f64::INFINITY;
     let mut worst_at = (0usize, 0usize, 0i64, 0i64);
     let mut worst_aligned = false;
     let mut far = false;
-    geom::tiling_pairs(os, &lat, &copies, |i, j, n, m, gap, a, b| {
+    geom::tiling_pairs(os, lat, copies, |i, j, n, m, gap, a, b| {
         if n.abs().max(m.abs()) >= 2 {
             far = true;
         }
@@ -154,10 +160,7 @@ pub fn judge_scored(os: &OShape, group: usize, p: &Params, ctx: &Ctx, rec: &Rec,
         }
     });
     if worst < -1e-9 {
-        let msg = format!(
-            "{}: score() is defined although copy {} and the image of copy {} at lattice index ({}, {}) overlap by {:e} (group {}, cell length {}, ratio {}, angle {}, site ({}, {}, {}))",
-            what, worst_at.0, worst_at.1, worst_at.2, worst_at.3, -worst, g.name, p.length, p.ratio, p.angle, p.x, p.y, p.phi
-        );
+        let msg = format!("{}: score() is defined although copy {} and the image of copy {} at lattice index ({}, {}) overlap by {:e} ({})", what, worst_at.0, worst_at.1, worst_at.2, worst_at.3, -worst, desc);
         if worst_aligned && ctx.known.listed("C12", "aligned-edges") {
             rec.known("aligned-edges", || format!("(root cause C12) {}", msg));
             return Ok(Judged { nontrivial: true, class: "known-aligned" });
@@ -599,6 +602,50 @@ fn single_site(c: &TilingCase, fails: &dyn Fn(&TilingCase) -> bool) -> TilingCas
     c.clone()
 }
 
+// ------------------------------------------------------------------------------------------------
+// multi-site: states with 2..4 occupied sites (several molecules per asymmetric unit), as `initialise` builds them
+
+fn multi_strat() -> BoxedStrategy<crate::multisite::MultiSpec> {
+    crate::multisite::multi_strat(any_shape(), 0.05, 0.75, 2, 4)
+}
+
+fn multi_oracle(c: &crate::multisite::MultiSpec, rec: &Rec, ctx: &Ctx) -> Result<(), String> {
+    let (score, os, total) = crate::multisite::hard_score(c)?;
+    rec.eval(1);
+    if !crate::hard::oshape_usable(&os) {
+        rec.class("skipped-shape");
+        return Ok(());
+    }
+    let copies = c.copies();
+    if total != copies.len() {
+        return Err(format!("a state with {} occupied sites of a group of order {} reports {} shapes ({})", c.sites.len(), copies.len() / c.sites.len(), total, c.describe()));
+    }
+    let lat = c.lattice();
+    let class = match score {
+        Some(_) => {
+            let j = judge_copies(&os, &lat, &copies, &c.describe(), ctx, rec, "state with several occupied sites")?;
+            if j.nontrivial {
+                rec.nontrivial(crate::engine::hash_json(&serde_json::to_value(c).unwrap()));
+            }
+            format!("{}sites/{}", c.sites.len(), j.class)
+        }
+        None => {
+            let mut overlap = false;
+            geom::tiling_pairs(&os, &lat, &copies, |_, _, _, _, gap, _, _| {
+                if gap < -1e-9 {
+                    overlap = true;
+                }
+            });
+            format!("{}sites/{}", c.sites.len(), if overlap { "rejected/overlap" } else { "rejected/oracle-sees-no-overlap" })
+        }
+    };
+    rec.class(&class);
+    if rec.wants_sample(&class) {
+        rec.sample(&class, || serde_json::json!({"case": c, "score": score}));
+    }
+    Ok(())
+}
+
 pub fn parts() -> Vec<PartDef> {
     vec![
         part_min("uniform", 40_000, 2_000_000, |_| uniform_strat(256), tiling_oracle, single_site),
@@ -606,5 +653,6 @@ pub fn parts() -> Vec<PartDef> {
         part("contact", 60_000, 3_000_000, |_| contact_strat(), contact_oracle),
         part("aligned-contact", 120_000, 4_000_000, |_| aligned_strat(), aligned_oracle),
         part("histories", 320, 20_000, |_| history_strat(), history_oracle),
+        part("multi-site", 300_000, 9_000_000, |_| multi_strat(), multi_oracle),
     ]
 }
